@@ -456,6 +456,10 @@ def to_model(data_file: typing.IO, _config = None, progress_callback=lambda _: N
   for line_index, line in enumerate(_none_terminated(lines)):
 
     if state is _State.START:
+      if line is None:
+        LOGGER.warning("The file is empty")
+        break
+
       if not line.startswith("WEBVTT"):
         LOGGER.warning("The first line of the file does not start with WEBVTT")
       state = _State.LOOKING
@@ -518,6 +522,8 @@ def to_model(data_file: typing.IO, _config = None, progress_callback=lambda _: N
 
       current_p.set_region(_get_or_make_region(doc, cue_params[3:]))
 
+      subtitle_text = ""
+
       state = _State.TEXT
 
       continue
@@ -525,6 +531,12 @@ def to_model(data_file: typing.IO, _config = None, progress_callback=lambda _: N
     if state in (_State.TEXT, _State.TEXT_MORE):
 
       if line is None or _EMPTY_RE.fullmatch(line):
+
+        if state is _State.TEXT:
+          # cue without text
+          state = _State.LOOKING
+          continue
+
         subtitle_text = subtitle_text.strip('\r\n').replace(r"\n\r", "\n")
 
         _parse_cue_text(subtitle_text, current_p, line_index)
